@@ -662,12 +662,15 @@ def gen_hist(rng, cid):
             for _ in range(rng.choice([1, 2])):
                 steps.append(gen_hist_set(rng, focus))
         for _ in range(rng.choice([1, 1, 2])):
-            if asts and ph > 0 and rng.random() < 0.7:
+            same = bool(asts) and ph > 0 and rng.random() < 0.7
+            if same:
                 ast = rng.choice(asts)                      # the SAME placeholder text once more
             else:
                 ast = new_ast()
                 asts.append(ast)
             steps.append({"op": "resolve", "ast": ast})
+            if same and rng.random() < 0.6:
+                steps[-1]["again"] = True                   # ... on the same Property object (mode proc)
         if ph < nph - 1:
             for _ in range(rng.choice([1, 1, 2])):
                 steps.append(gen_hist_set(rng, focus))
@@ -693,9 +696,13 @@ def retuple(x):
 
 def hist_send(c):
     steps = []
-    for st in c["steps"]:
+    last = {}          # tag text -> index of its latest resolve step
+    for ix, st in enumerate(c["steps"]):
         if st["op"] == "resolve":
-            steps.append({"op": "resolve", "tagtext": hx(render(st["ast"]) + ",required=false")})
+            text = hx(render(st["ast"]) + ",required=false")
+            steps.append({"op": "resolve", "tagtext": text,
+                          "reuse": last[text] + 1 if st.get("again") and c["mode"] == "proc" and text in last else 0})
+            last[text] = ix
         elif st["op"] == "set":
             steps.append({"op": "set", "key": hx(st["key"]), "val": to_val(st["val"])})
         else:
@@ -755,7 +762,7 @@ def hist_corpus():
         cs.append({"kind": "hist", "tree": tree, "mode": mode, "loaders": loaders, "name": "parent path set after a lookup (%s)" % mode,
                    "steps": [{"op": "resolve", "ast": port}, {"op": "resolve", "ast": url},
                              {"op": "set", "key": "server", "val": {"Host": "gateway", "port": 9090, "path": "api"}},
-                             {"op": "resolve", "ast": port}, {"op": "resolve", "ast": url},
+                             {"op": "resolve", "ast": port, "again": True}, {"op": "resolve", "ast": url, "again": True},
                              {"op": "resolve", "ast": [ph(lit("endpoints."), ph(lit("server.host:localhost")), lit(":none"))]},
                              {"op": "get", "key": "server.port"}, {"op": "get", "key": "SERVER"}]})
     level = [ph(lit("Log.Level:info"))]
@@ -763,8 +770,8 @@ def hist_corpus():
         cs.append({"kind": "hist", "tree": {"log": {"level": "warn"}}, "mode": mode, "loaders": loaders,
                    "name": "another spelling of the key (%s)" % mode,
                    "steps": [{"op": "resolve", "ast": level}, {"op": "set", "key": "log.level", "val": "debug"},
-                             {"op": "resolve", "ast": level}, {"op": "get", "key": "LOG.level"},
-                             {"op": "set", "key": "LOG.LEVEL", "val": None}, {"op": "resolve", "ast": level}]})
+                             {"op": "resolve", "ast": level, "again": True}, {"op": "get", "key": "LOG.level"},
+                             {"op": "set", "key": "LOG.LEVEL", "val": None}, {"op": "resolve", "ast": level, "again": True}]})
     whole = [ph(lit("server:none"))]
     cs.append({"kind": "hist", "tree": {"server": {"port": 1}}, "mode": "proc", "loaders": "keep", "name": "child path set after the parent was read",
                "steps": [{"op": "resolve", "ast": whole}, {"op": "set", "key": "server.host", "val": "h1"}, {"op": "resolve", "ast": whole},
@@ -1168,6 +1175,8 @@ def run(ctx):
     samples += [by_id[i] for i in sorted(by_id) if by_id[i].get("case", {}).get("stream") == "raw"][-2:]
     samples += [by_id[i] for i in sorted(by_id) if by_id[i].get("case", {}).get("kind") == "hist"][-1:]
     hstat = {"histories": 0, "steps": {"resolve": 0, "set": 0, "get": 0}, "resolve_mode": {}, "loaders": {},
+             "resolutions_on_the_Property_object_of_an_earlier_resolution_of_the_same_text(mode proc)": 0,
+             "... with a Set in between": 0,
              "a_placeholder_text_resolved_again_after_a_Set": 0, "Set_on": {"the_key_itself": 0, "a_parent_path(map value)": 0,
                                                                           "a_child_path": 0, "key_spelled_with_upper_case": 0}}
     for c in cases:
@@ -1182,6 +1191,9 @@ def run(ctx):
             hstat["steps"][st["op"]] += 1
             if st["op"] == "resolve":
                 t = render(st["ast"])
+                if st.get("again") and c["mode"] == "proc" and t in seen_texts:
+                    hstat["resolutions_on_the_Property_object_of_an_earlier_resolution_of_the_same_text(mode proc)"] += 1
+                    hstat["... with a Set in between"] += 1 if seen_texts[t] else 0
                 if t in seen_texts and seen_texts[t]:
                     again = True
                 seen_texts[t] = False
